@@ -14,7 +14,8 @@ LEVEL = "fault_enumeration"
 ENGINE = "hypothesis + fault enumeration (LD_PRELOAD)"
 TECHNIQUE = "fault injection with enumeration of the failing write/close position (LD_PRELOAD shim) over Hypothesis-generated libraries and output channels"
 RULE = ("Hypothesis generates a library (vf/hgen.py), an output channel {interrogate -oc, -od, -oh; interrogate_module -oc} and a fault "
-        "mode {ENOSPC, EIO, short write}; a fault-free run under the shim counts the write/writev/close operations N on that file; then "
+        "mode {ENOSPC, EIO, short write; persistent from the k-th operation on, or transient: only the k-th operation fails}; the main header carries "
+        "documentation comments of several KB so that the output needs many write operations, some starting inside a string; a fault-free run under the shim counts the write/writev/close operations N on that file; then "
         "the k-th operation (and all later ones) is failed for k=1..N (quick: up to 24 evenly spread k incl. first and last; thorough: "
         "every k). Static faults: missing directory, target is a directory, /dev/full. Non-trivial: a fault delivered after the first "
         "successful write (k>=2) or on close; distinct by (channel, fault kind, k class first/middle/last/close).")
@@ -31,7 +32,7 @@ def stages(ctx):
 
 def _strategy(ctx):
     return st.builds(lambda raw, ch, mode, backend: {"raw": raw, "channel": ch, "mode": mode, "backend": backend},
-                     hgen.raw_libraries(max_classes=4, max_funcs=4), st.sampled_from(CHANNELS), st.sampled_from(["enospc", "eio", "short"]),
+                     hgen.raw_libraries(max_classes=4, max_funcs=4), st.sampled_from(CHANNELS), st.sampled_from(["enospc", "eio", "short", "enospc-once", "eio-once"]),
                      st.sampled_from(["-python-native", "-c", "-python"]))
 
 
@@ -68,6 +69,12 @@ def judge(case, ctx):
     n_runs = 0
     with run.Scratch("c19") as d:
         for f, txt in lib.files.items():
+            if f == lib.main:
+                # long documentation comments: strings of several KB in the database and the code file, so that the output
+                # needs several write operations and some of them start inside a string
+                pad = "".join("BEGIN_PUBLISH\n// %s\nint vf_long_doc_%d(int a);\nEND_PUBLISH\n" % (("documentation text %d " % j) * (60 + 45 * j), j) for j in range(5))
+                i = txt.rstrip().rfind("#endif")
+                txt = txt[:i] + pad + txt[i:]
             run.write(os.path.join(d, f), txt)
         os.makedirs(os.path.join(d, "out"))
         os.makedirs(os.path.join(d, "pre"))
@@ -104,7 +111,8 @@ def judge(case, ctx):
             for p in outs.values():
                 if os.path.exists(p):
                     os.unlink(p)
-            env = dict(base, LD_PRELOAD=shim, FAULTFS_TARGET=os.path.basename(tgt), FAULTFS_K=str(k), FAULTFS_MODE=case["mode"], FAULTFS_LOG=log)
+            env = dict(base, LD_PRELOAD=shim, FAULTFS_TARGET=os.path.basename(tgt), FAULTFS_K=str(k), FAULTFS_MODE=case["mode"].split("-")[0], FAULTFS_LOG=log,
+                       FAULTFS_ONCE="1" if case["mode"].endswith("-once") else "0")
             r = run.run(argv, cwd=d, env=env, timeout=60)
             n_runs += 1
             lg = open(log).read() if os.path.exists(log) else ""
